@@ -13,6 +13,7 @@ import GE.Model.Number
 import GE.Model.AttrLoop
 import GE.Model.Position
 import GE.Model.Escape
+import GE.Model.ExprStr
 import GE.Model.BindingMap
 import GE.Model.CssIO
 /-!
@@ -127,6 +128,8 @@ def step (fs : List String) : String :=
       let a := GE.PA.prepareAnalysis sc e
       esc (GE.Gen.spellStmts o.stmts) ++ "\t" ++ esc (GE.Gen.spellAll o.toks) ++ "\t" ++ toString (GE.Gen.aboveCond e)
         ++ "\t" ++ esc (GE.PA.stateExpr sc false a.pas a.pc) ++ "\t" ++ esc (GE.PA.stateExpr sc true a.pas a.pc)
+  | ["expr_str", sx] =>
+    withExpr sx fun e => esc (GE.Gen.spellAll (GE.Str.strExpr (fun i => s!"s{i}") e))
   | ["esc_body", s] => esc (str (GE.Esc.escBody (chars s)))
   | ["esc_quote", s] => esc (str (GE.Esc.escQuote (chars s)))
   | "decode_text" :: src :: pairs =>
